@@ -121,21 +121,21 @@ def Nud.first : Nud → Tok
   | .paren _ => .lparen
   | .expref _ => .ampersand
 
-theorem Nud.toks_first (n : Nud) : ∃ r, n.toks = n.first :: r := by
+theorem Nud.toks_first_s (n : Nud) : ∃ r, n.toks = n.first :: r := by
   cases n <;> simp [Nud.toks, Nud.first]
 
 def Expr.first : Expr → Tok
   | .mk h _ => h.first
 
-theorem Expr.toks_first (e : Expr) : ∃ r, e.toks = e.first :: r := by
+theorem Expr.toks_first_s (e : Expr) : ∃ r, e.toks = e.first :: r := by
   cases e with
   | mk h ls =>
-    obtain ⟨r, hr⟩ := h.toks_first
+    obtain ⟨r, hr⟩ := h.toks_first_s
     exact ⟨r ++ ledsToks ls, by simp [Expr.toks, Expr.first, hr]⟩
 
 theorem Expr.first_of_yield (e : Expr) (ts ts' : List PT) (h : tk ts = e.toks ++ tk ts') :
     peekT ts = e.first := by
-  obtain ⟨r, hr⟩ := e.toks_first
+  obtain ⟨r, hr⟩ := e.toks_first_s
   rw [peekT_eq_peekL, h, hr]; rfl
 
 theorem Expr.headIsBracket_of_first (e : Expr) (h : e.first = .lbracket ∨ e.first = .filter) :
